@@ -82,16 +82,25 @@ def release (s : St) : St :=
   | some g =>
     (s.queue ++ s.blocked).foldl runMb (runMb { s with gateMb := none, queue := [], blocked := [] } g)
 
+/-- `ms` milliseconds of clock time pass (a long handler keeps the loop goroutine, posters sit in `Schedule`, or the
+dispatcher is idle).  `Schedule` is a plain blocking channel send: it has no deadline, a blocked sender stays blocked until
+the loop goroutine receives, a buffered run stays buffered.  Time alone changes nothing. -/
+def wait (s : St) (_ms : Nat) : St := s
+
+@[simp] theorem wait_eq (s : St) (ms : Nat) : wait s ms = s := rfl
+
 inductive Op where
   | post (mb msg : Nat) (gate : Bool)
   | release
   | selfPost (mb msg : Nat)
+  | wait (ms : Nat)
   deriving Repr
 
 def step (s : St) : Op → St
   | .post mb msg g => post s mb msg g
   | .release => release s
   | .selfPost mb msg => selfPost s mb msg
+  | .wait ms => wait s ms
 
 def runOps (s : St) (ops : List Op) : St := ops.foldl step s
 
